@@ -145,3 +145,49 @@ def bounded_replay(tier, seed):
 
 spec.EXTRA_CHECKS = getattr(spec, 'EXTRA_CHECKS', {})
 spec.EXTRA_CHECKS.setdefault('C18', []).append(bounded_replay)
+
+
+# ---- the Capture button writes the script to a file, the replay reads that file: the text compiled is the text written only
+#      if the file is read in the encoding it was written in.  Ghost file system: a file keeps (text, encoding it was written
+#      with; None = the platform default); reading it in another encoding yields some other text (a light named "Küche"
+#      comes back garbled and is then "not found" at replay)
+c = contract('web/web_app.py', 'capture_then_load', serves=['C18', 'C20'], name='lemma:WebApp.snapshot(); Parser.parse_file(the snapshot file)', src='''
+def capture_then_load(web_app, parser, path):
+    web_app.snapshot()
+    return parser.parse_file(path)
+''')
+def _setup(b, case):
+    from pyvc.values import Opaque, Builtin
+    from . import parserlib as PL
+    from .c20_web import web_app
+    wa, calls = web_app(b)
+    pr = PL.parser(b)
+    lib.injection_reset(b)
+    lib.provide(b, b.module('bardolph.controller.i_controller').ns['LightSet'], lib.light_set_with(b, {}))
+    lib.provide(b, b.module('bardolph.lib.i_lib').ns['Settings'], Opaque('settings', {'get_value': lambda I_, o, a, k: '.'}))
+    fs = {}
+    b.ghost('files_written', PyList())
+    def _open(I_, a, k):
+        path = a[0]
+        mode = a[1] if len(a) > 1 else k.get('mode', 'r')
+        enc = k.get('encoding')
+        enc = enc.lower().replace('_', '-') if isinstance(enc, str) else enc
+        if 'w' in mode:
+            def write(I2, o, a2, k2):
+                fs[path] = (a2[0], enc)
+                I2.ghost['files_written'].items.append(a2[0])
+            return Opaque('file', {'write': write, 'close': lambda I2, o, a2, k2: None, '__enter__': lambda I2, o, a2, k2: o, '__exit__': lambda I2, o, a2, k2: None})
+        if path not in fs:
+            I_.raise_builtin('FileNotFoundError', 'no such file')
+        text, wenc = fs[path]
+        def read(I2, o, a2, k2):
+            return text if wenc == enc else I2.fresh('str', 'text_decoded_in_another_encoding')
+        return Opaque('file', {'read': read, 'close': lambda I2, o, a2, k2: None, '__enter__': lambda I2, o, a2, k2: o, '__exit__': lambda I2, o, a2, k2: None})
+    b.ghost('open', _open)
+    parsed = b.ghost('parsed', PyList())
+    pr.attrs['parse'] = Builtin('parse', lambda I_, a, k: (parsed.items.append(a[0]), True)[1])
+    import os
+    return {'web_app': wa, 'parser': pr, 'path': os.path.join('.', '__snapshot__.ls')}
+c.setup(_setup)
+c.crosscheck = False
+c.ensures('the-text-compiled-is-the-text-captured', "len(ghost('files_written')) == 1 and len(ghost('parsed')) == 1 and ghost('parsed')[0] == ghost('files_written')[0]")
